@@ -207,7 +207,7 @@ inductive Term (ε : Type) where
   | assertFail
   /-- `ValueError` of `itertools.islice(flow, bufsize)` for a `bufsize` that is not an `int` -/
   | isliceError
-  deriving Repr
+  deriving Repr, DecidableEq
 
 /-- the fill loop (split.py:350-356) when `fill` may raise something else than `LenaStopFill`:
 that exception is not caught -/
